@@ -590,3 +590,21 @@ func (a *adversary) process(s *session, sidx int, f pframe) []chunk {
 	}
 	return out
 }
+
+// cutCurrent closes the newest connection of this proxy (both directions), as a
+// network failure or a reader hanging up would. Returns false if there is none
+// open.
+func (p *proxy) cutCurrent() bool {
+	ss := p.Sessions()
+	if len(ss) == 0 {
+		return false
+	}
+	s := ss[len(ss)-1]
+	if s.ClosedBy() != "" {
+		return false
+	}
+	s.markClosed("harness")
+	s.rc.Close()
+	s.sc.Close()
+	return true
+}
